@@ -20,7 +20,9 @@ RULE = ('cases = random flat machines (2-6 states, plain or Enum states, labels,
         'conditions / unless with fixed values, custom labels), display options show_conditions / '
         'show_auto_transitions / show_state_attributes drawn independently, auto_transitions off in 35 %, any state as initial, and a history '
         'of 0-7 steps: model.trigger(event) (known triggers, to_<state>, unknown names), add_states (top level, '
-        'leaf or compound; 45 % as one call with a list: that state first, then 1-2 further states), add_transition, remove_transition (with and without source/dest filters); in 40 % of '
+        'leaf or compound; 45 % as one call with a list: that state first, then 1-2 further states), add_transition, remove_transition (with and without source/dest filters), get_graph(force_new=True); '
+        'the diagrams are fetched through the model\'s get_graph or (50 %) the machine\'s get_graph(title, force_new, '
+        'show_roi), each keyword on its own; in 40 % of '
         'the cases with events (non-Enum, all states simple) 1-3 on_enter callbacks fire follow-up events from inside '
         'the callback (chains A -e1-> B, on_enter of B fires e2, B -e2-> C; budget 1-3 per call; also in on_exit lists, '
         'and callbacks that regenerate the graph); 30 % of all cases use the async, 20 % the locked graph machine classes; every 9th '
@@ -174,6 +176,8 @@ def gen(rng, i, tier):
     case['scoped'] = _scoped(rng, forest, val) if hsm else []
     # the attribute of the model that holds the state; with a custom one optionally a second, plain machine that
     # manages the same model under 'state' (sharing the top-level state names, resting in some state)
+    # the diagrams are fetched with the model's get_graph or with the machine's (get_combined_graph alias)
+    case['via'] = 'machine' if rng.random() < 0.5 else 'model'
     case['mattr'] = 'state' if rng.random() < 0.6 else rng.choice(['phase', 'mode'])
     case['decoy'] = rng.choice(forest)['id'] if (case['mattr'] != 'state' and rng.random() < 0.5) else None
     if case['mattr'] != 'state' and not hsm:
@@ -215,7 +219,10 @@ def gen(rng, i, tier):
                 case['ops'].append(['addsl', [nd] + more])
             else:
                 case['ops'].append(['adds', nd])
-        elif r < 0.9 or not cur_trans:
+        elif r < 0.8:
+            # get_graph(force_new=True): a fresh graph object (styling reset, current state active)
+            case['ops'].append(['mregen'])
+        elif r < 0.92 or not cur_trans:
             t = _trans(rng, paths, val)
             cur_trans.append(t)
             case['ops'].append(['addt', t])
@@ -347,6 +354,8 @@ def enc_op(o):
         return [1, enc_node(o[1])]
     if o[0] == 'addsl':
         return [4, [enc_node(n) for n in o[1]]]
+    if o[0] == 'mregen':
+        return [4, []]      # regeneration without a change of the machine: add_states([]) in the model
     if o[0] == 'addt':
         return [2, enc_trans(o[1])]
     return [3, _s(o[1]), _opt(o[2], lambda d: d), _opt(o[3], lambda d: d)]
@@ -605,10 +614,12 @@ def impl(case):
                    auto_transitions=False)
         assert model.state == names.text([case['decoy']])
 
-    def observe():
+    getter = machine.get_graph if case.get('via', 'model') == 'machine' else model.get_graph
+
+    def observe(full_graph=None):
         cur = [names.path(s) for s in _flatten(getattr(model, mattr))]
-        full = parse_mermaid(model.get_graph().draw(None), names)
-        roi = parse_mermaid(model.get_graph(show_roi=True).draw(None), names)
+        full = parse_mermaid((full_graph or getter()).draw(None), names)
+        roi = parse_mermaid(getter(show_roi=True).draw(None), names)
         return [cur, full, roi]
 
     obs = [observe()]
@@ -632,6 +643,9 @@ def impl(case):
             machine.add_states([_state_cfg(nd, hsm) for nd in op[1]])
         elif op[0] == 'addt':
             machine.add_transition(**tcfg(op[1]))
+        elif op[0] == 'mregen':
+            obs.append(observe(getter(force_new=True)))
+            continue
         else:
             machine.remove_transition(op[1], '*' if op[2] is None else sref(op[2]),
                                       '*' if op[3] is None else sref(op[3]))
@@ -767,6 +781,7 @@ def stats(case, obs, dist):
     if case.get('regen'):
         inc('with_regenerating_callbacks')
     inc('class_' + case.get('cls', 'sync'))
+    inc('graphs_via_' + case.get('via', 'model'))
     if case.get('mattr', 'state') != 'state':
         inc('custom_model_attribute')
     if case.get('decoy') is not None:
